@@ -145,7 +145,7 @@ CALLEE_USERS = ("C05", "C06", "C09", "C10", "C11", "C12", "C13", "C14", "C15", "
 #: properties decided by proofs about one subscription of one operator application: the frame condition that carries them to
 #: every subscription / application is checked for their own files (frame.run_local)
 STATE_ALLOCATION = ("C05", "C06", "C07", "C09", "C10", "C11", "C12", "C13", "C14", "C15", "C16", "C17", "C18", "C19", "C24", "C35", "C37",
-                    "C38", "C40", "C41")
+                    "C38", "C40", "C41", "C22", "C28", "C29", "C30", "C31", "C33", "C34", "C36")
 
 
 #: operator contracts a property's lemma is stated over (proved under another property): re-proved inside this check as well
